@@ -4,6 +4,7 @@ import (
 	"context"
 	"fmt"
 	"io"
+	"strings"
 
 	. "github.com/warpfork/go-errcat"
 
@@ -37,11 +38,20 @@ func CreateMirror(unpacker unpackFn) rio.MirrorFunc {
 		// Try to read the ware from the target first; if successfull, no-op out.
 		//  We don't fully re-verify the content, because that requires a time
 		//  committment, and we want this command to be fast when run repeatedly.
+		//  Where the address is not made from the hash, though ("file://", "http://": one object, whatever ware it is),
+		//  finding something there says nothing about *which* ware it is: that one we do read through.
 		reader, err := PickReader(wareID, []api.WarehouseLocation{target}, false, mon)
 		if err == nil {
-			log.MirrorNoop(mon, target, wareID)
+			held := true
+			if !strings.HasPrefix(string(target), "ca+") {
+				gotWare, _, uerr := unpacker(ctx, nilFS.New(), api.FilesetUnpackFilter_Lossless, wareID, reader, rio.Monitor{})
+				held = uerr == nil && gotWare == wareID
+			}
 			reader.Close()
-			return wareID, nil
+			if held {
+				log.MirrorNoop(mon, target, wareID)
+				return wareID, nil
+			}
 		}
 
 		// Connect to target warehouse, and get write controller opened.
